@@ -1091,3 +1091,82 @@ def rule_lazy_chain(ctx):
         for k in interp.visited_fns:
             ctx.analysed_functions.add(k)
     ctx.floor(RULE, 8, n, "stage-chain obligations")
+
+
+def rule_lazy_latch(ctx):
+    """No one-way latches in re-usable solver objects.  A boolean member that some non-constructor
+    method sets to a constant, and that no non-constructor method ever sets to the opposite constant
+    (or to a computed value), can never return to its initial value: once an object has been through
+    the branch that sets it, every later use of the same object - after reset() with other data, after
+    min_x() with another subset - still sees it.  The solver objects are re-used that way by
+    LocalNetwork, so such a member makes answers depend on the history of calls.  Decided over all
+    methods of the class, its bases and its derived classes (writes resolved through the member's
+    owner record, not its name)."""
+    table = engine.load_table("lazy.json")
+    fx = ctx.facts
+    roots = ["GNU_gama::" + c if not c.startswith("GNU_gama::") else c for c in table.get("latch_classes", [])]
+    if not roots:
+        raise AnalysisBroken("lazy table: latch_classes missing")
+    family = set()
+    for r in roots:
+        fx.cls(r)
+        family.add(r)
+        family |= set(fx.bases_of(r))
+        family |= set(fx.derived_from(r))
+    family = {c for c in family if c.startswith("GNU_gama::")}
+    bool_fields = {}
+    for c in family:
+        rec = fx.classes.get(c)
+        if not rec:
+            continue
+        for f in rec.get("fields", []):
+            if f.get("t") == "bool":
+                bool_fields[(strip_targs(c), f["name"])] = {"ctor": set(), "set": {}, "where": None}
+    n = 0
+    for c in sorted(family):
+        for m in fx.methods_of(c):
+            if m.body is None and not m.rec.get("inits"):
+                continue
+            ctor = bool(m.rec.get("ctor"))
+            for node in m.walk():
+                if node.get("k") in ("BinaryOperator", "CompoundAssignOperator") and node.get("op") in ("=", "|=", "&=", "^="):
+                    lhs = node["c"][0]
+                    if lhs.get("k") != "MemberExpr" or not F.is_this_field(lhs):
+                        continue
+                    key = (strip_targs(lhs.get("owner") or ""), lhs.get("member"))
+                    if key not in bool_fields:
+                        continue
+                    rhs = node["c"][1]
+                    v = bool(rhs.get("v")) if (node["op"] == "=" and rhs.get("k") == "CXXBoolLiteralExpr") else "computed"
+                    if ctor:
+                        bool_fields[key]["ctor"].add(v)
+                    else:
+                        # a public method that records a constant unconditionally is configuration by the caller
+                        # (set_verbose(), set_gons()), not state derived from the data: the caller can say what it asked for
+                        if m.rec.get("access", 0) == 0 and v != "computed":
+                            pb = m.cfg.block_of(node)
+                            if pb is not None and pb[0] in m.cfg.pdom.get(m.cfg.entry, set()):
+                                bool_fields[key]["config"] = True
+                        bool_fields[key]["set"].setdefault(v, []).append(m)
+                        ctx.saw(m)
+                # a member handed out by non-const reference / address may be written elsewhere
+                if node.get("k") == "UnaryOperator" and node.get("op") == "&" and node.get("c") and F.is_this_field(node["c"][0]):
+                    key = (strip_targs(node["c"][0].get("owner") or ""), node["c"][0].get("member"))
+                    if key in bool_fields and not ctor:
+                        bool_fields[key]["set"].setdefault("computed", []).append(m)
+    for (c, f), info in sorted(bool_fields.items()):
+        sets = info["set"]
+        if not sets:
+            continue            # configuration fixed at construction: nothing to return to
+        n += 1
+        consts = {v for v in sets if v != "computed"}
+        ok = "computed" in sets or len(consts) == 2 or bool(info.get("config"))
+        m0 = next(iter(sets.values()))[0]
+        v0 = next(iter(consts)) if consts else None
+        ctx.report(RULE, "LATCH:%s::%s" % (short(c), f), ok, m0.where(), m0.short,
+                   "" if ok else "'%s' is set to %s by %s and never set back by any method of the class family: after the "
+                   "first run through that branch every later use of the same object sees it, whatever reset()/min_x() did "
+                   "in between - answers depend on the history of calls"
+                   % (f, str(v0).lower(), ", ".join(sorted({short(x.qn) for x in sets[v0]}))),
+                   {"writers": {str(k): sorted({short(x.qn) for x in v}) for k, v in sets.items()}})
+    ctx.floor(RULE, int(table.get("floor_latch", 1)), n, "boolean state members of the solver classes")
